@@ -95,6 +95,18 @@ def _gen_cases(rng, tier):
 		('server', b'GET / HTTP/1.1\r\nHost: h\r\nConnection: Upgrade, HTTP2-Settings\r\nUpgrade: h2c\r\nHTTP2-Settings: Zm9v\r\nContent-Length: 2\r\n\r\nPOST / HTTP/1.1\r\nHost: h\r\nContent-Length: 1\r\n\r\nx'),
 		('server', b'GET ' + b'/a' * 600 + b' HTTP/1.1\r\nHost: h\r\n\r\n'),
 		('client-connect', b'HTTP/1.1 200 OK\r\nContent-Length: 3\r\nTransfer-Encoding: chunked\r\n\r\nHTTP/1.1 407 Auth\r\nContent-Length: 2\r\n\r\nabHTTP/1.1 200 OK\r\n\r\n'),
+		# white space other than SP inside the start line (what strip()/split() tolerate must be tolerated at every cut)
+		('server', b'GET\x0b/ HTTP/1.1\r\nHost: h\r\n\r\nGET / HTTP/1.1\r\nHost: h\r\nContent-Length: 0\r\n\r\n'),
+		('server', b'GET /\x0cHTTP/1.1\r\nHost: h\r\n\r\n'),
+		('server', b'GET\t/\tHTTP/1.1 \r\nHost: h\r\n\r\n'),
+		('server', b' GET  /  HTTP/1.1\r\nHost: h\r\n\r\n'),
+		('client', b'HTTP/1.1\x0b200\x0cOK\r\nContent-Length: 0\r\n\r\nHTTP/1.1\t204\tNo Content\r\n\r\n'),
+		# two things wrong in one message: which error is reported must not depend on the cuts
+		('server', b'POST / HTTP/1.1\r\nHost: h\r\nTransfer-Encoding: gzip\r\nBad Line\r\n\r\nab'),
+		('server', b'POST / HTTP/1.1\r\nHost: h\r\nBad Line\r\nTransfer-Encoding: gzip\r\n\r\nab'),
+		('server', b'POST / HTTP/1.1\r\nTransfer-Encoding: gzip\r\nContent-Length: x\r\nX: y\r\n z\r\nBad\x00Name: v\r\n\r\nab'),
+		('client', b'HTTP/1.1 200 OK\r\nTransfer-Encoding: foo\r\nContent-Length: -1\r\nNoColon\r\n\r\nab'),
+		('server', b'GET /%zz HTTP/9.9\r\nHost: a b\r\nContent-Length: x\r\n\r\n'),
 	]
 	for kind, s in directed:
 		cases.append({'k': 'frag', 'kind': kind, 's': s.hex(), 'cuts': [[], list(range(1, len(s)))] + streams.single_cuts(s, None if tier == 'thorough' else 50)})
